@@ -60,6 +60,7 @@ def run_history(flavour, ops_or_gen, on_step=None, nmax=None):
     Returns list of steps: dict(op, line, outcome, before, after, cache_before, cache_after)."""
     sess = T.Session(flavour)
     steps = []
+    hist = []
     try:
         i = 0
         while True:
@@ -74,17 +75,27 @@ def run_history(flavour, ops_or_gen, on_step=None, nmax=None):
                     break
                 op = ops_or_gen[i]
             i += 1
+            if op["op"] == "_harvest":          # pseudo-ops: pick up handles through the API, as a caller would
+                sess.harvest(op["h"])
+                hist.append(op)
+                continue
+            if op["op"] == "_fresh":
+                sess.fresh(op["kind"], op["name"])
+                hist.append(op)
+                continue
             before = T.snapshot(sess.topo)
-            hkey = op.get("svc") if op["op"] in ("connect", "disconnect", "ns_add_interface") else None
-            cb = T._cache(sess.handles[hkey].obj) if hkey in sess.handles else None
+            hkeys = [op.get(f) for f in T.cache_handles(op)]
+            caches = lambda: [T._cache(sess.handles[hk].obj) if hk in sess.handles else None for hk in hkeys] or None
+            cb = caches()
             try:
                 outcome, line = sess.apply(op)
             except ValueError:
                 continue
             after = T.snapshot(sess.topo)
-            ca = T._cache(sess.handles[hkey].obj) if hkey in sess.handles else None
+            ca = caches()
             T.after_success(sess, op, outcome)
-            st = dict(op=op, line=line, outcome=outcome, before=before, after=after, cache_before=cb, cache_after=ca)
+            hist.append(op)
+            st = dict(op=op, line=line, outcome=outcome, before=before, after=after, cache_before=cb, cache_after=ca, history=list(hist))
             steps.append(st)
             if on_step:
                 on_step(sess, st)
@@ -100,7 +111,8 @@ def signature(st):
     mod = ""
     if not left and not gone:
         mod = "cache"
-    return "C09:%s:%s:left[%s]lost[%s]%s" % (st["op"]["op"], st["outcome"][1], left, gone, mod)
+    api = {"add_component_mt": "add_component"}.get(st["op"]["op"], st["op"]["op"])      # the same API call, model_type= form
+    return "C09:%s:%s:left[%s]lost[%s]%s" % (api, st["outcome"][1], left, gone, mod)
 
 
 def check_step(st, res, case):
@@ -117,10 +129,10 @@ def check_step(st, res, case):
     return True
 
 
-def random_history(ctx, tag, flavour, n, fault):
+def random_history(ctx, tag, flavour, n, fault, ext=False):
     rng = ctx.sub_rng(tag)
     names = T.Names(rng)
-    return run_history(flavour, lambda sess: T.gen_op(rng, sess, names, fault), nmax=n)
+    return run_history(flavour, lambda sess: T.gen_op(rng, sess, names, fault, ext=ext), nmax=n)
 
 
 def base_ops(flavour):
@@ -207,6 +219,7 @@ def systematic_cases(flavour):
         out.append(("add_link/stale", pre + [
             {"op": "remove_component", "parent": "h1", "name": "nic2"},
             {"op": "add_link", "name": "lx", "nid": "lxid", "ltype": "Patch", "ifs": ["h3", "h6"], "kw": []}]))
+    out += extension_cases(flavour, base)
     # bad keyword at every position among good ones, for every creating call
     g = {"node": T.GOOD_KW["node"][:2], "comp": T.GOOD_KW["comp"][:2], "svc": T.GOOD_KW["svc"][:2], "iface": T.GOOD_KW["iface"][:2],
          "link": T.GOOD_KW["link"][:2]}
@@ -287,6 +300,128 @@ def systematic_cases(flavour):
     return out
 
 
+def extension_cases(flavour, base):
+    """the second alphabet: sub-interfaces, peer/unpeer, port mirror, model_type= components"""
+    out = []
+    lab = lambda v: ["labels", ["lab", {"vlan": v}]]
+    if flavour == "sub":
+        pre = base
+        out.append(("add_child_interface/sub/ok+dup-id", pre + [
+            {"op": "add_child_interface", "port": "h3", "name": "sub1", "nid": "sub1id", "kw": [lab("101")]},
+            {"op": "add_child_interface", "port": "h3", "name": "sub2", "nid": "c2i1", "kw": [lab("102")]},
+            {"op": "add_child_interface", "port": "h3", "name": "sub3", "nid": None, "kw": [lab("103")]}]))
+        out.append(("add_component_mt/sub/no-ids", pre + [
+            {"op": "add_component_mt", "parent": "h0", "name": "mx", "nid": "mxid", "model_type": "SmartNIC_ConnectX_6", "kw": []},
+            {"op": "add_component_mt", "parent": "h0", "name": "my", "nid": "myid", "model_type": "SmartNIC_ConnectX_6", "ctype": "SmartNIC",
+             "model": "ConnectX-6", "kw": []},
+            {"op": "add_component_mt", "parent": "h0", "name": "mz", "nid": "mzid", "model_type": "SmartNIC_ConnectX_6",
+             "ns_nid": "mzns", "if_nids": ["mzi1", "c1i1"], "n_labels": 2, "kw": []}]))
+        out.append(("peer/sub", pre + [
+            {"op": "add_service", "name": "sa", "nid": "said", "nstype": "L2Bridge", "ifs": [], "kw": []},
+            {"op": "add_service", "name": "sb", "nid": "sbid", "nstype": "L2Bridge", "ifs": [], "kw": []},
+            {"op": "peer", "svc": "h10", "other": "h11", "kw": []}]))
+        return out
+    kids = base + [
+        {"op": "add_child_interface", "port": "h3", "name": "sub1", "kw": [lab("101")]},                           # h10
+        {"op": "add_child_interface", "port": "h3", "name": "sub2", "kw": [lab("102"), ["capacities", ["cap", {"bw": 1}]]]},  # h11
+        {"op": "add_child_interface", "port": "h6", "name": "sub3", "kw": [lab("103")]},                           # h12
+    ]
+    for tag, op in (
+            ("dup-name", {"port": "h3", "name": "sub1", "kw": [lab("109")]}),
+            ("dup-vlan", {"port": "h3", "name": "subx", "kw": [lab("102")]}),
+            ("no-labels", {"port": "h3", "name": "subx", "kw": []}),
+            ("no-vlan", {"port": "h3", "name": "subx", "kw": [["labels", ["lab", {"local_name": "x"}]]]}),
+            ("not-dedicated", {"port": "h9", "name": "subx", "kw": [lab("109")]}),
+            ("bad-name", {"port": "h3", "name": "bad/name", "kw": [lab("109")]}),
+            ("on-sub-interface", {"port": "h10", "name": "subx", "kw": [lab("109")]})):
+        out.append(("add_child_interface/" + tag, kids + [dict(op, op="add_child_interface")]))
+    for pos in range(3):
+        kw = [lab("109"), ["capacities", ["cap", {"bw": 1}]]]
+        kw.insert(pos, T.BAD_KW["iface"][1])
+        out.append(("add_child_interface/bad-prop@%d" % pos, kids + [{"op": "add_child_interface", "port": "h3", "name": "subx", "kw": kw}]))
+    out.append(("add_child_interface/stale-port", kids + [
+        {"op": "remove_component", "parent": "h0", "name": "nic1"},
+        {"op": "add_child_interface", "port": "h3", "name": "subx", "kw": [lab("109")]}]))
+    out.append(("add_child_interface/stale-sibling", kids + [
+        {"op": "_harvest", "h": "h2"},          # h13 h14: fresh handles on nic1's ports (their child lists are read now)
+        {"op": "remove_child_interface", "port": "h13", "name": "sub1"},
+        {"op": "add_child_interface", "port": "h3", "name": "subx", "kw": [lab("109")]}]))   # h3's list still names sub1
+    out.append(("remove_child_interface/no-such", kids + [{"op": "remove_child_interface", "port": "h3", "name": "nope"}]))
+    out.append(("remove_child_interface/connected", kids + [
+        {"op": "add_service", "name": "sk", "nstype": "L2Bridge", "ifs": ["h10", "h12"], "kw": []},
+        {"op": "remove_child_interface", "port": "h3", "name": "sub1"},
+        {"op": "remove_child_interface", "port": "h3", "name": "sub1"},
+        {"op": "remove_child_interface", "port": "h9", "name": "sub1"}]))
+    # removals of carriers of sub-interfaces (every removal path goes through remove_cp_and_links)
+    for tag, rm in (("remove_component", {"op": "remove_component", "parent": "h0", "name": "nic1"}),
+                    ("remove_node", {"op": "remove_node", "name": "n1"}),
+                    ):
+        out.append(("children/" + tag, kids + [
+            {"op": "add_service", "name": "sk", "nstype": "L2Bridge", "ifs": ["h10", "h7"], "kw": []}, rm,
+            {"op": "add_service", "name": "sz", "nstype": "L2Bridge", "ifs": ["h10"], "kw": []}]))
+    out.append(("children/remove_switch", base + [
+        {"op": "add_switch", "name": "sw1", "site": "RENC", "nports": 2},                                         # h10; ports h11 h12
+        {"op": "add_child_interface", "port": "h11", "name": "sub1", "kw": [lab("101")]},
+        {"op": "add_child_interface", "port": "h11", "name": "sub2", "kw": [lab("102")]},
+        {"op": "remove_switch", "name": "sw1"}]))
+    out.append(("children/node_remove_service", base + [
+        {"op": "add_switch", "name": "sw1", "site": "RENC", "nports": 2},                                         # h10; ports h11 h12
+        {"op": "add_child_interface", "port": "h11", "name": "sub1", "kw": [lab("101")]},                          # h13
+        {"op": "add_child_interface", "port": "h12", "name": "sub2", "kw": [lab("102")]},                          # h14
+        {"op": "add_service", "name": "sk", "nstype": "L2Bridge", "ifs": ["h13", "h3"], "kw": []},
+        {"op": "node_remove_service", "parent": "h10", "name": "sw1-ns"},
+        {"op": "add_service", "name": "sz", "nstype": "L2Bridge", "ifs": ["h14"], "kw": []}]))
+    # peering
+    two = base + [{"op": "add_service", "name": "sa", "nstype": "L3VPN", "ifs": ["h3"], "kw": []},                 # h10
+                  {"op": "add_service", "name": "sb", "nstype": "L3VPN", "ifs": [], "kw": []},                      # h11
+                  {"op": "add_service", "name": "sc", "nstype": "L3VPN", "ifs": [], "kw": []}]                      # h12
+    out.append(("peer/ok-twice-unpeer", two + [
+        {"op": "peer", "svc": "h10", "other": "h11", "kw": [["labels", ["lab", {"vlan": "300"}]]]},
+        {"op": "peer", "svc": "h10", "other": "h11", "kw": []},
+        {"op": "peer", "svc": "h11", "other": "h10", "kw": []},
+        {"op": "unpeer", "svc": "h12", "other": "h10"},
+        {"op": "unpeer", "svc": "h11", "other": "h10"},
+        {"op": "unpeer", "svc": "h11", "other": "h10"}]))
+    out.append(("peer/bogus", two + [{"op": "peer", "svc": "h10", "other": T.BOGUS, "kw": []},
+                                     {"op": "unpeer", "svc": "h10", "other": T.BOGUS}]))
+    out.append(("peer/stale-other", two + [{"op": "remove_service", "name": "sb"}, {"op": "peer", "svc": "h10", "other": "h11", "kw": []}]))
+    out.append(("peer/stale-self", two + [{"op": "remove_service", "name": "sa"}, {"op": "peer", "svc": "h10", "other": "h11", "kw": []}]))
+    out.append(("peer/other-has-that-name", two + [
+        {"op": "ns_add_interface", "svc": "h11", "name": "sb-sa", "itype": "TrunkPort", "kw": []},
+        {"op": "_fresh", "kind": "svc", "name": "sb"},                                                            # h14: lists sb-sa
+        {"op": "peer", "svc": "h10", "other": "h14", "kw": []}]))
+    for pos in range(2):
+        kw = [["capacities", ["cap", {"bw": 1}]]]
+        kw.insert(pos, T.BAD_KW["iface"][0] if pos else T.BAD_KW["iface"][1])
+        out.append(("peer/bad-prop@%d" % pos, two + [{"op": "peer", "svc": "h10", "other": "h11", "kw": kw}]))
+    out.append(("unpeer/stale-own-port", two + [
+        {"op": "peer", "svc": "h10", "other": "h11", "kw": []},
+        {"op": "remove_link", "name": "sa-sb-link"},
+        {"op": "unpeer", "svc": "h10", "other": "h11"}]))
+    # port mirror
+    pm = {"op": "add_port_mirror", "name": "pm1", "to": "h6", "from_name": "nic1-p1", "from_vlan": "100", "direction": "RX_Only", "kw": []}
+    out.append(("add_port_mirror/ok+dup", two + [pm, dict(pm, to="h7")]))
+    for tag, ch in (("no-to", {"to": None}), ("no-from", {"from_name": None}), ("empty-from", {"from_name": ""}), ("connected", {"to": "h3"}),
+                    ("bogus", {"to": T.BOGUS}), ("shared-port", {"to": "h9"})):
+        out.append(("add_port_mirror/" + tag, two + [dict(pm, **ch)]))
+    for pos in range(3):
+        kw = list(T.GOOD_KW["svc"][:2])
+        kw.insert(pos, T.BAD_KW["svc"][1])
+        out.append(("add_port_mirror/bad-prop@%d" % pos, two + [dict(pm, kw=kw)]))
+    out.append(("add_port_mirror/stale-to", two + [{"op": "remove_node", "name": "n2"}, pm]))
+    # model_type= components
+    out.append(("add_component_mt/ok+dup-name", base + [
+        {"op": "add_component_mt", "parent": "h1", "name": "mx", "model_type": "FPGA_Xilinx_U280", "kw": []},
+        {"op": "add_component_mt", "parent": "h1", "name": "mx", "model_type": "GPU_RTX6000", "kw": []},
+        {"op": "add_component_mt", "parent": "h1", "name": "my", "model_type": "GPU_RTX6000", "ctype": "SmartNIC", "model": "Nope", "kw": []}]))
+    for pos in range(3):
+        kw = list(T.GOOD_KW["comp"][:2])
+        kw.insert(pos, T.BAD_KW["comp"][1])
+        out.append(("add_component_mt/bad-prop@%d" % pos, base + [{"op": "add_component_mt", "parent": "h1", "name": "mx",
+                                                                   "model_type": "SmartNIC_ConnectX_5", "kw": kw}]))
+    return out
+
+
 def corpus_cases():
     out = []
     for fn in sorted(glob.glob(os.path.join(CORPUS, "*.json"))):
@@ -325,18 +460,23 @@ def compare_with_model(steps_by_history, res):
         res.count("outcome:" + (i_out[0] if i_out[0] == "ok" else "err:" + i_out[1]))
         if "fault" in st["op"]:
             res.count("fault:" + st["op"]["fault"])
-        impl = {"outcome": i_out[:2], "cache": T.canon_cache(st["cache_after"] if i_out[0] == "ok" and st["op"]["op"] in ("connect", "disconnect", "ns_add_interface") else (i_out[2] if i_out[0] == "ok" else None)),
+        ca = st["cache_after"]
+        impl = {"outcome": i_out[:2], "cache": T.canon_cache(ca[0] if i_out[0] == "ok" and ca else (i_out[2] if i_out[0] == "ok" else None)),
+                "cache2": T.canon_cache(ca[1]) if i_out[0] == "ok" and ca and len(ca) > 1 else None,
                 "snap": st["after"]}
-        model = {"outcome": m_out[:2], "cache": T.canon_cache(m_out[2]) if m_out[0] == "ok" else None, "snap": m_snap}
+        model = {"outcome": m_out[:2], "cache": T.canon_cache(m_out[2]) if m_out[0] == "ok" else None,
+                 "cache2": T.canon_cache(m_out[3]) if m_out[0] == "ok" and len(m_out) > 3 else None, "snap": m_snap}
         if i_out[0] == "ok" and impl["cache"] is None:
             model["cache"] = None
+        if i_out[0] == "ok" and impl["cache2"] is None:
+            model["cache2"] = None
         if impl != model:
             d = {k: {"impl": impl[k], "model": model[k]} for k in impl if impl[k] != model[k]}
             if "snap" in d:
                 a, r, ea, er = T.snap_diff(model["snap"] or {"nodes": [], "edges": []}, impl["snap"])
                 d["snap"] = {"impl_only_nodes": a, "model_only_nodes": r, "impl_only_edges": ea, "model_only_edges": er}
             res.disagreements.append({"case": {"history": ix[0], "step": ix[1], "line": st["line"],
-                                               "ops": [s["op"] for s in steps_by_history[ix[0]][:ix[1] + 1]]},
+                                               "ops": st["history"]},
                                       "impl": d, "model": "see impl"})
         if nontrivial(steps_by_history[ix[0]], ix[1]):
             res.nontrivial.add(canon([st["op"]["op"], st["op"].get("fault"), i_out[1], len(st["op"].get("ifs") or [])]))
@@ -352,7 +492,7 @@ def correspondence(ctx, res):
     n = ctx.scale(45, 300)
     for i in range(n):
         fl = "exp" if i % 3 else "sub"
-        hs.append(random_history(ctx, "corr/%d" % i, fl, ctx.scale(25, 40), 0.3))
+        hs.append(random_history(ctx, "corr/%d" % i, fl, ctx.scale(25, 40), 0.3, ext=(i % 2 == 1)))
     compare_with_model(hs, res)
     for h in hs[-2:]:
         if h:
@@ -370,7 +510,7 @@ def oracle(ctx, res, budget=None):
                 res.count("failing:" + st["op"]["op"] + ":" + st["outcome"][1])
                 if nontrivial(steps, i):
                     res.nontrivial.add(canon([label.split("@")[0], st["op"]["op"], st["outcome"][1]]))
-            check_step(st, res, {"flavour": fl, "ops": [s["op"] for s in steps[:i + 1]], "label": label})
+            check_step(st, res, {"flavour": fl, "ops": steps[i]["history"], "label": label})
     for name, fl, ops in corpus_cases():
         run_case("corpus:" + name, fl, ops)
     for fl in ("exp", "sub"):
@@ -384,7 +524,7 @@ def oracle(ctx, res, budget=None):
         sess_ops = []
 
         def gen(sess):
-            op = T.gen_op(rng, sess, names, 0.45)
+            op = T.gen_op(rng, sess, names, 0.45, ext=(i % 2 == 1))
             sess_ops.append(op)
             return op
         steps = run_history(fl, gen, nmax=ctx.scale(25, 40))
@@ -394,7 +534,7 @@ def oracle(ctx, res, budget=None):
                 res.count("failing:" + st["op"]["op"] + ":" + st["outcome"][1])
                 if nontrivial(steps, j):
                     res.nontrivial.add(canon([st["op"]["op"], st["op"].get("fault"), st["outcome"][1]]))
-            check_step(st, res, {"flavour": fl, "ops": [s["op"] for s in steps[:j + 1]], "label": "random"})
+            check_step(st, res, {"flavour": fl, "ops": steps[j]["history"], "label": "random"})
     res.sample({"oracle": "snapshot(before) == snapshot(after) and cache unchanged for every raising call", "histograms": dict(list(res.hist.items())[:8])})
 
 
@@ -415,7 +555,7 @@ def search(ctx, res, broken):
                 continue
             for i, st in enumerate(steps):
                 res.evaluations += 1
-                check_step(st, res, {"flavour": fl, "ops": [x["op"] for x in steps[:i + 1]], "label": "correspondence-difference"})
+                check_step(st, res, {"flavour": fl, "ops": steps[i]["history"], "label": "correspondence-difference"})
     if res.violations:
         return
     oracle(ctx, res, budget=ctx.scale(600, 4000))
